@@ -57,6 +57,11 @@ def singleton_phens(rng):
             return phens
 
 
+def pl_weird():
+    from harness import predlang as pl
+    return pl.WEIRD_TS
+
+
 def _nfc(name):
     import unicodedata
     return unicodedata.normalize('NFC', name)
@@ -123,6 +128,7 @@ def per_case(case, rd, outs, r):
     r.count('ops_remote', sum(1 for o in case.ops if o.startswith('rem')))
     r.count('ops_local', sum(1 for o in case.ops if o.startswith('ev')))
     prev_tab = []
+    prev_raw = []
     told_finished = set()      # ids this instance was told (or itself reported) are finished
     slots = 0                  # places of the finished-run memory they can have taken (a foreign id and the local run it stood for)
     for k, (op, out) in enumerate(zip(case.ops, outs)):
@@ -130,6 +136,19 @@ def per_case(case, rd, outs, r):
             r.violations.append(Violation('exception-escaped', f'exception escaped at {op[:60]}', {**case.to_json(), 'failing_step': k}))
             return
         tab = [x.rstrip('!').split('|') for x in _parse_table(out)]
+        # a run that finished while processing THIS event is not held any more: held finished, it never moves again and a
+        # singleton pattern can never restart (whatever made the step end abnormally -- an event the history cannot order)
+        if op.startswith('ev '):
+            t_now = out[out.rindex('T[') + 2:-1].split()
+            t_was = set(prev_raw)
+            stuck = [x for x in t_now if x.endswith('!') and x not in t_was]
+            if stuck:
+                r.violations.append(Violation('finished-singleton-run-active',
+                                              f"after {op[:60]} run {stuck[0].split('|')[0]} is finished (complete or halted) but still held as an active run of "
+                                              f"{stuck[0].split('|')[1]}/{stuck[0].split('|')[2]}: it will never move again",
+                                              {**case.to_json(), 'failing_step': k}))
+                return
+        prev_raw = out[out.rindex('T[') + 2:-1].split() if 'T[' in out else []
         # a run the instance has seen finish — also one finished by a peer under a foreign id — must not be active
         # again (with the memory enabled and large): it would block the singleton from ever restarting
         if case.cache > 0:
@@ -228,6 +247,19 @@ def run(ctx: Ctx) -> Result:
         for _ in range(1500 if ctx.thorough else 250):
             res.count('random')
             yield gen_history(ctx.rng, singleton_phens(ctx.rng), ctx.rng.choice((0, 8, 1000)), ctx.rng.randint(6, 40), p_remote=0.5)
+        # events stamped by their sources with something that is not a number (an ISO text, None): the history cannot order
+        # them against the others; whatever becomes of such an event, no pattern ends up with two runs or with a dead one
+        for _ in range(600 if ctx.thorough else 120):
+            res.count('random_unorderable_timestamps')
+            c = gen_history(ctx.rng, singleton_phens(ctx.rng), ctx.rng.choice((0, 8, 1000)), ctx.rng.randint(6, 30), p_remote=0.3)
+            ops, n = [], 0
+            for o in c.ops:
+                w = o.split()
+                if w[0] == 'ev' and ctx.rng.random() < 0.2:
+                    w[2] = str(pl_weird() - n)
+                    n += 1
+                ops.append(' '.join(w))
+            yield Case(c.phens, c.cache, ops, 'weirdts+nomodel')
     if ctx.replay is None or not ctx.replay['replay'].get('race'):
         run_cases(ctx, cases(), res, per_case=per_case, use_ref=False)
     # "at every moment, under every interleaving": the engine thread's update() against the distributed thread's
